@@ -29,8 +29,8 @@ impl Engine for TrieEngine {
                 p.budget_s = if quick { 300 } else { 1500 };
         let san = |asan: (u64, u64), miri: (u64, u64)| {
             vec![
-                SanTier { name: "asan", shards: 16, cases: if quick { asan.0 } else { asan.1 }, timeout_s: if quick { 1200 } else { 2 * 3600 }, budget_s: if quick { 40 } else { 1200 } },
-                SanTier { name: "miri", shards: 16, cases: if quick { miri.0 } else { miri.1 }, timeout_s: if quick { 1200 } else { 2 * 3600 }, budget_s: if quick { 45 } else { 1200 } },
+                SanTier { name: "asan", shards: 16, cases: if quick { asan.0 } else { asan.1 }, timeout_s: if quick { 1200 } else { 2 * 3600 }, budget_s: if quick { 40 } else { 600 } },
+                SanTier { name: "miri", shards: 16, cases: if quick { miri.0 } else { miri.1 }, timeout_s: if quick { 1200 } else { 2 * 3600 }, budget_s: if quick { 45 } else { 600 } },
             ]
         };
         match prop {
@@ -44,7 +44,7 @@ impl Engine for TrieEngine {
                 p.cases = if quick { 2500 } else { 200_000 };
                 p.rule = "case = contents set (0-43 keys, adversarial alphabet, inline/indirect values) built through 6 different histories (from_iterator; random insertion order; with extra keys deleted again; generations with rollback and commit; two-stage with persistence in between; extra subtrees removed by delete_prefix after thawing) and a random persistence chain (store/reload, cache, serialize/deserialize, migrate, unmodified and same-value refreeze); every resulting state must hash to the independent reference hash and read back equal; evaluations = built states + chains + pinned vectors; distinct_nontrivial = distinct contents sets with >= 3 keys and >= 1 odd-length stem".into();
                 p.floors = vec![("contents.nontrivial".into(), 200), ("history.3".into(), 300), ("history.4".into(), 300), ("history.5".into(), 300), ("chain.store_reload".into(), 100), ("chain.migrate".into(), 100), ("chain.serialize".into(), 100), ("chain.refreeze_unmodified".into(), 100), ("pinned.checked".into(), 96), ("ref.long_stems".into(), 20)];
-                p.san = vec![SanTier { name: "miri", shards: 16, cases: if quick { 30 } else { 1000 }, timeout_s: if quick { 1200 } else { 2 * 3600 }, budget_s: if quick { 45 } else { 1200 } }];
+                p.san = vec![SanTier { name: "miri", shards: 16, cases: if quick { 30 } else { 1000 }, timeout_s: if quick { 1200 } else { 2 * 3600 }, budget_s: if quick { 45 } else { 600 } }];
             }
             "C15" => {
                 p.cases = if quick { 12_000 } else { 6_000_000 };
@@ -65,7 +65,7 @@ impl Engine for TrieEngine {
                     ("interrupt.rolled_back".into(), 300),
                     ("interrupt.unchanged".into(), 300),
                 ];
-                p.san = vec![SanTier { name: "asan", shards: 16, cases: if quick { 300 } else { 20_000 }, timeout_s: if quick { 1200 } else { 2 * 3600 }, budget_s: if quick { 40 } else { 1200 } }];
+                p.san = vec![SanTier { name: "asan", shards: 16, cases: if quick { 300 } else { 20_000 }, timeout_s: if quick { 1200 } else { 2 * 3600 }, budget_s: if quick { 40 } else { 600 } }];
             }
             _ => {}
         }
